@@ -6,7 +6,7 @@ from .. import sym
 from ..evalfn import SELF
 from ..source import AnalysisError
 from ..sym import canon
-from .common import over_all_children, ALGOS, BACKTEST, CORE, G, Roles, dominates, fld, guard_subset, has_lit, plain, short
+from .common import selects_strategies, over_all_children, ALGOS, BACKTEST, CORE, G, Roles, dominates, fld, guard_subset, has_lit, plain, short
 from . import core_rules
 from .core_rules import bound_args, mentions_field
 
@@ -71,6 +71,12 @@ def shadow_creation(chk, pid):
            expected="Backtest(initial_capital=%s)" % dv, found=short(amount) if amount is not None else "?", sample={"paper_amount": short(amount) if amount is not None else None, "default": dv})
 
 
+def _mentions(atom, e):
+    """the literal only tests the pushed argument itself (`if self.commissions is not None`)"""
+    a0 = e.args[0] if e.args else None
+    return a0 is not None and sym.contains(atom, lambda n: n == a0 or (isinstance(n, tuple) and canon(n) == canon(a0)))
+
+
 def settings_pushed_at_construction(chk, pid):
     """C09 / C19: integer positions and commissions are pushed at construction time - before setup copies the shadows."""
     S = chk.summary(BACKTEST, "Backtest", "__init__", host="Backtest")
@@ -86,9 +92,22 @@ def settings_pushed_at_construction(chk, pid):
            expected="self.strategy.use_integer_positions(integer_positions) in __init__", found="%d calls" % len(ip))
     sc = [e for e in calls if e.name == "set_commissions"]
     ok = bool(sc) and sc[0].args and canon(sc[0].args[0]) == canon(("param", "commissions")) and has_lit(sc[0].guard, ("isnone", ("param", "commissions")), False)
-    chk.ob("C19.R2", ok, BACKTEST, host, "commissions-pushed-at-construction", "a commission function is pushed down the tree when the backtest is built", where=S.fn.where)
     R = chk.summary(BACKTEST, "Backtest", "run", host="Backtest")
-    late = [e for e in R.events if e.kind == "call" and e.name in ("use_integer_positions", "set_commissions")]
+    setups = [e for e in R.events if e.kind == "call" and e.name == "setup" and e.recv is not None and e.recv[0] == "fld" and e.recv[2] == "strategy"]
+    pushes = [e for e in R.events if e.kind == "call" and e.name in ("use_integer_positions", "set_commissions")]
+    early = [e for e in pushes if setups and e.seq < setups[0].seq and guard_subset([l for l in plain(e.guard) if not _mentions(l[0], e)], setups[0].guard)]
+    if not ok and not sc:
+        # the other place that is early enough: in run(), ahead of the strategy's setup, from the constructor argument kept on the backtest
+        for e in early:
+            a0 = e.args[0] if e.args else None
+            if e.name != "set_commissions" or a0 is None or a0[0] != "fld" or canon(a0[1]) != canon(SELF):
+                continue
+            kept = [w for w in S.writes(a0[2], SELF)]
+            ok = (len(kept) == 1 and canon(kept[0].value) == canon(("param", "commissions")) and bool(sw_) and guard_subset(kept[0].guard, sw_[0].guard)
+                  and has_lit(e.guard, ("isnone", ("fld", SELF, a0[2], 0)), False) and e.recv is not None and e.recv[0] == "fld" and e.recv[2] == "strategy")
+    chk.ob("C19.R2", ok, BACKTEST, host, "commissions-pushed-at-construction", "a commission function is pushed down the tree when the backtest is built (or, at the latest, ahead of the strategy's setup)",
+           where=S.fn.where)
+    late = [e for e in pushes if e not in early]
     chk.ob("C19.R2", not late, BACKTEST, "Backtest.run", "no-settings-after-setup", "no setting is pushed after setup (the shadows would not see it)", where=R.fn.where)
 
 
@@ -226,7 +245,7 @@ def add_children_rules(chk, pid):
         attach_obligations(chk, S, a, host, "C19.R1")
         sc = [e for e in S.events if e.kind == "call" and e.name == "append" and e.recv is not None and e.recv[0] == "fld" and e.recv[2] == "_strat_children"]
         hs = [w for w in S.writes("_has_strat_children", SELF) if canon(w.value) == canon(sym.TRUE)]
-        ok = bool(sc) and bool(hs) and any(p and a[0] == "call" and a[1] == "isinstance" and a[2][1] == ("class", "StrategyBase") for a, p in sc[0].guard)
+        ok = bool(sc) and bool(hs) and any(selects_strategies(a, p) for a, p in sc[0].guard)
         chk.ob("C19.R1", ok, CORE, host, "strategy-children-registered", "strategy children are flagged and listed (they get a universe column)", where=fi.where)
         ut = [e for e in S.events if e.kind == "call" and e.name == "append" and e.recv is not None and e.recv[0] == "fld" and e.recv[2] == "_universe_tickers"]
         ok = bool(ut) and any((not p) and a[0] == "in" and mentions_field(a, "_universe_tickers", SELF) for a, p in ut[0].guard)
